@@ -259,3 +259,241 @@ def finite_arith(prog: Program) -> RuleResult:
 
 
 RULES = {"FINITE-ARITH": finite_arith, "SIGMA-INVARIANCE": sigma_invariance, "SIGMA-CLOSURE": sigma_closure, "SIGMA-DRAW": sigma_draw}
+
+
+# ---------------------------------------------------------------------------
+# SUBTREE-BOX: sibling boxes are disjoint, inside their parent, below its trunk (symbolic lemma)
+
+
+def subtree_box(prog: Program) -> RuleResult:
+    import re
+    from fractions import Fraction
+
+    from ..linineq import Ctx
+    from ..sigma import is_orientation_test
+    from ..sym import Poly
+
+    res = RuleResult(
+        "SUBTREE-BOX",
+        "box lemma of _layout_subtrees, proved symbolically from the VERTICAL arm (the HORIZONTAL arm is its "
+        "transposition, SIGMA-INVARIANCE): with the box of child j = (offset stored for it, its size) as the "
+        "positioning loop pairs them, for all non-negative child sizes, trunk sizes, fork thickness and spacing "
+        "parameters the two sibling boxes do not overlap along the across axis, both lie inside the parent's box, "
+        "and both start below the parent's trunk.  Each inequality is PROVED (max(a, b) >= a, sums of non-negative "
+        "terms) or REFUTED by a concrete non-negative assignment; neither is an analysis error",
+    )
+    modname = "render.layout"
+    mod = prog.module(modname)
+    fn = prog.func(modname, "_layout_subtrees")
+    # ---- locate the size loop, its ancestral branch, and the positioning loop
+    loops = [st for st in fn.body if isinstance(st, ast.For)]
+    if len(loops) != 2:
+        raise AnalysisError("_layout_subtrees: expected a size loop and a positioning loop")
+    size_loop, pos_loop = loops
+    sp = dotted(size_loop.target)
+    anc = None
+    for st in ast.walk(size_loop):
+        if isinstance(st, ast.If) and isinstance(st.test, ast.Call) and isinstance(st.test.func, ast.Attribute) and st.test.func.attr == "is_leaf" and dotted(st.test.func.value) == sp:
+            anc = st.orelse
+    if not anc:
+        raise AnalysisError("_layout_subtrees: ancestral branch (`else` of `is_leaf()`) not found")
+    state_name = None
+    for st in size_loop.body:
+        if isinstance(st, ast.Assign) and isinstance(st.value, ast.Subscript) and dotted(st.value.slice) == sp and isinstance(st.targets[0], ast.Name):
+            state_name = st.targets[0].id
+    if state_name is None:
+        raise AnalysisError("_layout_subtrees: `state = layout_state[species]` not found")
+
+    ctx_holder: List[Ctx] = []
+    child_vars: List[str] = []
+    info_vars: dict = {}
+
+    def canon(text: str) -> str:
+        for name, k in info_vars.items():
+            text = re.sub(rf"\b{re.escape(name)}\b", f"child{k}", text)
+        return text
+
+    nonneg_names: set = set()
+
+    def is_nonneg(key: str) -> bool:
+        if key.startswith("params."):
+            return True
+        if re.fullmatch(r"child[01]\['size'\]\.[wh]", key):
+            return True
+        return key in nonneg_names
+
+    ctx = Ctx(is_nonneg)
+
+    def ev(expr: ast.AST, env: dict):
+        if isinstance(expr, ast.Constant) and isinstance(expr.value, (int, float)) and not isinstance(expr.value, bool):
+            return Poly.const(Fraction(expr.value).limit_denominator(10**6))
+        if isinstance(expr, ast.Name):
+            if expr.id in env:
+                return env[expr.id]
+            return Poly.atom(expr.id)
+        if isinstance(expr, ast.UnaryOp) and isinstance(expr.op, ast.USub):
+            v = ev(expr.operand, env)
+            if isinstance(v, Poly):
+                return -v
+        if isinstance(expr, ast.BinOp):
+            a, b = ev(expr.left, env), ev(expr.right, env)
+            if isinstance(a, Poly) and isinstance(b, Poly):
+                if isinstance(expr.op, ast.Add):
+                    return a + b
+                if isinstance(expr.op, ast.Sub):
+                    return a - b
+                if isinstance(expr.op, ast.Mult):
+                    return a * b
+                if isinstance(expr.op, ast.Div) and b.is_const() and b.const_value() != 0:
+                    return a.scale(1 / b.const_value())
+            raise AnalysisError(f"SUBTREE-BOX: arithmetic `{short(expr)}` not understood")
+        if isinstance(expr, ast.Call):
+            name = dotted(expr.func)
+            if name in ("max", "min") and expr.args and not expr.keywords:
+                args = [ev(a, env) for a in expr.args]
+                if all(isinstance(a, Poly) for a in args):
+                    return ctx.extremum(name, args)
+            if name in ("Position", "Size") and len(expr.args) == 2 and not expr.keywords:
+                a, b = ev(expr.args[0], env), ev(expr.args[1], env)
+                if isinstance(a, Poly) and isinstance(b, Poly):
+                    return ("vec", a, b)
+            if name and name.endswith("make_from"):
+                pos = ev(expr.args[0] if expr.args else next(k.value for k in expr.keywords if k.arg == "position"), env)
+                size = ev(expr.args[1] if len(expr.args) > 1 else next(k.value for k in expr.keywords if k.arg == "size"), env)
+                return ("rect", pos, size)
+            return Poly.atom(canon(ast.unparse(expr)))
+        if isinstance(expr, ast.Attribute):
+            if expr.attr in ("x", "y", "w", "h"):
+                base = ev(expr.value, env)
+                if isinstance(base, tuple) and base[0] == "vec":
+                    return base[1] if expr.attr in ("x", "w") else base[2]
+            return Poly.atom(canon(ast.unparse(expr)))
+        if isinstance(expr, ast.Subscript):
+            base = expr.value
+            if isinstance(base, ast.Name) and base.id in info_vars and isinstance(expr.slice, ast.Constant) and expr.slice.value == size_key:
+                k = info_vars[base.id]
+                return ("vec", Poly.atom(f"child{k}['size'].w"), Poly.atom(f"child{k}['size'].h"))
+            return Poly.atom(canon(ast.unparse(expr)))
+        raise AnalysisError(f"SUBTREE-BOX: expression `{short(expr)}` not understood")
+
+    # ---- pairing in the positioning loop
+    pchild: List[str] = []
+    size_keys: set = set()
+    pairs: dict = {}
+    for st in ast.walk(pos_loop):
+        if isinstance(st, ast.Assign) and isinstance(st.targets[0], ast.Tuple) and isinstance(st.value, ast.Attribute) and st.value.attr == "children":
+            pchild = [dotted(e) for e in st.targets[0].elts]
+    for st in ast.walk(pos_loop):
+        if isinstance(st, ast.Assign) and isinstance(st.targets[0], ast.Subscript) and isinstance(st.targets[0].slice, ast.Constant):
+            who = st.targets[0].value
+            if isinstance(who, ast.Subscript) and dotted(who.slice) in pchild and isinstance(st.value, ast.Call) and (dotted(st.value.func) or "").endswith("make_from"):
+                j = pchild.index(dotted(who.slice))
+                call = st.value
+                posarg = call.args[0] if call.args else next((k.value for k in call.keywords if k.arg == "position"), None)
+                sizearg = call.args[1] if len(call.args) > 1 else next((k.value for k in call.keywords if k.arg == "size"), None)
+                keys = [n.slice.value for n in ast.walk(posarg) if isinstance(n, ast.Subscript) and isinstance(n.slice, ast.Constant) and isinstance(n.slice.value, str)] if posarg is not None else []
+                size_of = [dotted(n.slice) for n in ast.walk(sizearg) if isinstance(n, ast.Subscript) and dotted(n.slice) in pchild] if sizearg is not None else []
+                if isinstance(sizearg, ast.Subscript) and isinstance(sizearg.slice, ast.Constant):
+                    size_keys.add(sizearg.slice.value)
+                keys = [k_ for k_ in keys if k_ not in size_keys]
+                if len(keys) != 1 or len(size_of) != 1:
+                    raise AnalysisError(f"SUBTREE-BOX: positioning `{short(st, 80)}` not understood")
+                pairs[j] = (keys[0], pchild.index(size_of[0]), st)
+    if set(pairs) != {0, 1}:
+        raise AnalysisError("SUBTREE-BOX: the positioning loop does not place both children")
+    if len(size_keys) != 1:
+        raise AnalysisError("SUBTREE-BOX: the key under which subtree sizes are stored is not recognised")
+    size_key = next(iter(size_keys))
+    stores: dict = {}
+    env: dict = {}
+
+    def run(stmts):
+        for st in stmts:
+            if isinstance(st, ast.Expr) and isinstance(st.value, ast.Constant):
+                continue
+            if isinstance(st, ast.If):
+                kind = is_orientation_test(st.test)
+                if kind is None:
+                    raise AnalysisError(f"SUBTREE-BOX: test `{short(st.test)}` in the ancestral branch is not an orientation switch")
+                run(st.body if kind == "VERTICAL" else st.orelse)
+                continue
+            if isinstance(st, ast.Assign) and len(st.targets) == 1:
+                tgt = st.targets[0]
+                if isinstance(tgt, ast.Tuple) and isinstance(st.value, ast.Attribute) and st.value.attr == "children" and len(tgt.elts) == 2:
+                    child_vars[:] = [dotted(e) for e in tgt.elts]
+                    continue
+                if isinstance(tgt, ast.Name) and isinstance(st.value, ast.Subscript) and dotted(st.value.slice) in child_vars and not isinstance(st.value.value, ast.Subscript):
+                    info_vars[tgt.id] = child_vars.index(dotted(st.value.slice))
+                    continue
+                if isinstance(tgt, ast.Name):
+                    env[tgt.id] = ev(st.value, env)
+                    continue
+                if isinstance(tgt, ast.Subscript) and dotted(tgt.value) == state_name and isinstance(tgt.slice, ast.Constant):
+                    stores[tgt.slice.value] = (ev(st.value, env), st)
+                    continue
+            if isinstance(st, ast.AugAssign) and isinstance(st.target, ast.Name) and isinstance(st.op, (ast.Add, ast.Sub)):
+                cur = env.get(st.target.id, Poly.atom(st.target.id))
+                val = ev(st.value, env)
+                if isinstance(cur, Poly) and isinstance(val, Poly):
+                    env[st.target.id] = cur + val if isinstance(st.op, ast.Add) else cur - val
+                    continue
+            raise AnalysisError(f"SUBTREE-BOX: statement `{short(st, 70)}` in the ancestral branch not understood")
+
+    # names assumed non-negative: the components of the trunk size and the fork thickness (computed before the branch)
+    for st in ast.walk(size_loop):
+        if isinstance(st, ast.Assign) and isinstance(st.value, ast.Call) and dotted(st.value.func) == "Size" and isinstance(st.targets[0], ast.Name):
+            if all(isinstance(a, ast.Name) for a in st.value.args):
+                trunk_size_name = st.targets[0].id
+                if any(isinstance(u, ast.Call) and (dotted(u.func) or "").endswith("make_from") and any(dotted(a) == trunk_size_name for a in list(u.args) + [k.value for k in u.keywords]) for u in ast.walk(size_loop)):
+                    nonneg_names.update(a.id for a in st.value.args)
+                    env[trunk_size_name] = ("vec", Poly.atom(st.value.args[0].id), Poly.atom(st.value.args[1].id))
+    run(anc)
+    for key, (_val, st_) in stores.items():
+        if isinstance(st_.value, ast.Name):
+            nonneg_names.add(st_.value.id)  # a scalar stored as it is (the fork thickness)
+    trunk_keys = [k for k, (v, _s) in stores.items() if isinstance(v, tuple) and v[0] == "rect"]
+    if size_key not in stores or len(trunk_keys) != 1:
+        raise AnalysisError("SUBTREE-BOX: the ancestral branch does not store the subtree size and the trunk")
+    size_v = stores[size_key][0]
+    trunk_v = stores[trunk_keys[0]][0]
+    if not (isinstance(size_v, tuple) and size_v[0] == "vec" and isinstance(trunk_v, tuple) and trunk_v[0] == "rect"):
+        raise AnalysisError("SUBTREE-BOX: stored size / trunk not recognised")
+    trunk_pos, trunk_size = trunk_v[1], trunk_v[2]
+    boxes = {}
+    for j, (key, size_child, st) in pairs.items():
+        if key not in stores:
+            raise AnalysisError(f"SUBTREE-BOX: offset `{key}` used by the positioning loop is not stored by the size loop")
+        off = stores[key][0]
+        if not (isinstance(off, tuple) and off[0] == "vec"):
+            raise AnalysisError(f"SUBTREE-BOX: offset `{key}` is not a Position")
+        boxes[j] = (off, (Poly.atom(f"child{size_child}['size'].w"), Poly.atom(f"child{size_child}['size'].h")), key, size_child, st)
+
+    def decide(label: str, alternatives, node):
+        """alternatives: list of polys, the obligation holds when one of them is >= 0 for all non-negative unknowns."""
+        construct = f"{modname}:_layout_subtrees/box/{label}"
+        if any(ctx.prove_nonneg(p) for p in alternatives):
+            res.ok(construct, "proved for all non-negative sizes and spacings")
+            return
+        witnesses = [ctx.refute_nonneg(p) for p in alternatives]
+        if all(w is not None for w in witnesses):
+            w = witnesses[0]
+            shown = ", ".join(f"{k} = {v}" for k, v in sorted(w.items()) if v != 0) or "all sizes 0"
+            res.fail(construct, f"refuted: with {shown} (everything else 0) the quantity `{alternatives[0]}` that must be >= 0 is negative", mod, node)
+            return
+        raise AnalysisError(f"{construct}: `{alternatives[0]} >= 0` is neither proved nor refuted")
+
+    (o0, s0, k0, c0, st0), (o1, s1, k1, c1, st1) = boxes[0], boxes[1]
+    decide("siblings-disjoint", [o1[1] - o0[1] - s0[0], o0[1] - o1[1] - s1[0]], st1)
+    for j, (off, sz, key, _c, st) in boxes.items():
+        for label, poly in (
+            (f"child{j}/left-edge-inside", off[1]),
+            (f"child{j}/right-edge-inside", size_v[1] - off[1] - sz[0]),
+            (f"child{j}/top-edge-inside", off[2]),
+            (f"child{j}/bottom-edge-inside", size_v[2] - off[2] - sz[1]),
+            (f"child{j}/below-parent-trunk", off[2] - trunk_pos[2] - trunk_size[2]),
+        ):
+            decide(label, [poly], st)
+    return res
+
+
+RULES["SUBTREE-BOX"] = subtree_box
